@@ -10,6 +10,7 @@ pub mod c10;
 pub mod c11;
 pub mod c12;
 pub mod c13;
+pub mod c14;
 pub mod c15;
 pub mod history;
 
@@ -51,6 +52,7 @@ pub fn dispatch(prop: &str, tier: Tier, seed: u64, only: Option<usize>, args: &[
         "C11" => c11::run(&ctx),
         "C12" => c12::run(&ctx),
         "C13" => c13::run(&ctx),
+        "C14" => c14::run(&ctx),
         "C15" => c15::run(&ctx),
         _ => {
             eprintln!("unknown property {prop}");
